@@ -3,7 +3,7 @@
 Usage: python3 tools_manifest.py   (validates against /root/.vp/MANIFEST.schema.json if jsonschema is importable)
 """
 import json, os, sys
-HERE = os.path.dirname(os.path.abspath(__file__))
+HERE = os.path.dirname(os.path.dirname(os.path.abspath(__file__)))
 props = [json.loads(l) for l in open(os.path.join(HERE, "properties.jsonl"))]
 
 # per property: (engine, level category, technique, level text, level note, design_ref)
